@@ -462,16 +462,26 @@ enum Outcome {
     Ok,
     Err(String),
     Panic(String),
+    /// the call did not return within CALL_DEADLINE (30x the longest timer on these paths, start_direct's 2 s)
+    Hang,
 }
+
+const CALL_DEADLINE: std::time::Duration = std::time::Duration::from_secs(60);
 
 async fn exec(run: &mut Run, tm: &Tmpl, call: &Value, id: u64) -> Outcome {
     let op = call["op"].as_str().unwrap();
     let pc = run.pc.clone();
     macro_rules! spawned {
         ($fut:expr) => {{
-            match tokio::spawn($fut).await {
-                Ok(r) => r,
-                Err(e) => {
+            let h = tokio::spawn($fut);
+            let ah = h.abort_handle();
+            match tokio::time::timeout(CALL_DEADLINE, h).await {
+                Err(_) => {
+                    ah.abort();
+                    return Outcome::Hang;
+                }
+                Ok(Ok(r)) => r,
+                Ok(Err(e)) => {
                     if e.is_panic() {
                         let p = e.into_panic();
                         let msg = p
@@ -654,12 +664,16 @@ async fn run_program(mode: String, prog: Value, table: Arc<Table>, tm: Arc<Tmpl>
                 counts[3] += 1;
                 ("Panic", p.clone())
             }
+            Outcome::Hang => {
+                counts[3] += 1;
+                ("Hang", format!("no return within {} s", CALL_DEADLINE.as_secs()))
+            }
         };
         let st = abs_key(&pre, &m_sig, m_local != 0, m_remote != 0);
         let key = (st.clone(), call_key(call), res.to_string());
         let base = json!({
             "sub": "jsep", "mode": mode, "media": media, "pre": pre, "step": i, "call": call["op"], "t": call["t"], "d": call["d"],
-            "sig": m_sig, "res": res, "err": err, "failure_site": if res == "Err" { failure_site(&err) } else if res == "Panic" { "panic" } else { "-" },
+            "sig": m_sig, "res": res, "err": err, "failure_site": if res == "Err" { failure_site(&err) } else if res == "Panic" { "panic" } else if res == "Hang" { "hang" } else { "-" },
             "program": calls, "before": before, "after": after,
         });
         let mut diverged = false;
@@ -683,7 +697,7 @@ async fn run_program(mode: String, prog: Value, table: Arc<Table>, tm: Arc<Tmpl>
             None => {
                 // the contract has no such step: a forbidden call that succeeded, or a call that did not return
                 let allowed_any = table.edges.contains_key(&(st.clone(), call_key(call), "Ok".to_string()));
-                let rule = if res == "Panic" { "Returns" } else { "TableConformance" };
+                let rule = if res == "Panic" || res == "Hang" { "Returns" } else { "TableConformance" };
                 push(&mut out, "divergence", rule, "result",
                      json!(if allowed_any { "Ok|Err" } else { "Err" }), json!(res));
                 diverged = true;
@@ -823,6 +837,9 @@ fn collect(
     match r {
         Ok((rows, hits, c)) => {
             stats.programs += 1;
+            if stats.programs % 100_000 == 0 {
+                eprintln!("jsep: {} program runs done", stats.programs);
+            }
             stats.calls += c[0];
             stats.ok += c[1];
             stats.err += c[2];
